@@ -55,8 +55,11 @@ func c14Gen(seed uint64, tier string) any {
 		n := r.Range(2, 7)
 		for i := 0; i < n; i++ {
 			src := g.Program(r.Range(1, 3))
-			if r.Chance(1, 8) {
-				src = Pick(r, []string{"[x,2]\n[x,2]", "d20 + 力量", "`{2d6} 点`", "&cv = 2d6; cv + cv", "func ff(p) { return p + d4 }; ff(2d6)"})
+			if r.Chance(1, 5) {
+				src = Pick(r, []string{"[x,2]\n[x,2]", "d20 + 力量", "`{2d6} 点`", "&cv = 2d6; cv + cv", "func ff(p) { return p + d4 }; ff(2d6)",
+					// long values loaded with detail: the text may abbreviate them, the values must stay as they are
+					"xs = [100..140]; xs.len() + 2d6", "xs = [100..140]; xs[3] + d6", "xs = [100..140]; xs", "long = [1000..1030]; &cv = long[8] + long[9] + d4; cv", "ys = [100..120] + [200..220]; ys[8] * 1000 + ys[9] + d2",
+					"dd = {'a': [100..140], 'b': '" + strings.Repeat("长文本", 20) + "'}; dd.a[9] + d6", "s1 = '" + strings.Repeat("abcdefghij", 12) + "'; s1 + `{d6}`"})
 			}
 			switch r.Intn(6) {
 			case 0:
